@@ -129,6 +129,9 @@ def build_harness(scale=None):
     if problems:
         return False, "\n".join(problems)
     exe = os.path.join(BUILD, "vharness" if scale is None else "vharness-scaled")
+    write_if_changed(os.path.join(HARNESS, "go.mod"),
+                     "module verifharness\n\ngo 1.14\n\nrequire github.com/alibaba/RedisShake v0.0.0\n\n"
+                     "replace github.com/alibaba/RedisShake => %s\n" % SRC)
     shutil.copyfile(os.path.join(SRC, "go.sum"), os.path.join(HARNESS, "go.sum"))
     rc, out = sh(["go", "build", "-tags", "verif", "-overlay", ov, "-o", exe, "."], cwd=HARNESS, env=GOENV)
     return rc == 0, out
@@ -207,14 +210,12 @@ def grep_forbidden(pid):
 
 def load_findings(pid):
     out = {}
-    p = os.path.join(VERIF, "known_findings.txt")
-    if not os.path.exists(p):
-        return out
-    for line in open(p):
-        line = line.strip()
-        m = re.match(r"finding: property=(\S+) sig=(\S+) (.*)", line)
-        if m and m.group(1) == pid:
-            out[m.group(2)] = m.group(3)
+    for p in sorted(glob.glob(os.path.join(VERIF, "known_findings*.txt"))):
+        for line in open(p):
+            line = line.strip()
+            m = re.match(r"finding: property=(\S+) sig=(\S+) (.*)", line)
+            if m and m.group(1) == pid:
+                out[m.group(2)] = m.group(3)
     return out
 
 
